@@ -838,6 +838,40 @@ func main() {
 		emit("many-dynamic", &sequence{cmds: addsOf(r, ws)}, false)
 	}
 
+	// (v) the same service, destination and tags added AGAIN with another weight: addTarget's
+	// de-duplication compares the weight too, so this is a further target of the route and the
+	// route is weighed again - also when the re-add is the last command that touches the route.
+	// Own random stream.
+	{
+		rr := rand.New(rand.NewSource(run.Seed*7919 + 44))
+		pairs := [][2]string{{"", "0.9"}, {"0.1", "0.6"}, {"0.5", "0.25"}, {"0.2", "0.7"}, {"", "0.05"}, {"0.3", "1"}, {"0.05", "0.5"}}
+		for i := 0; i < run.Scale(14, 140); i++ {
+			pw := pairs[i%len(pairs)]
+			s := &sequence{}
+			t0 := mkTarget(rr, 0)
+			first := command{kind: "add", tg: t0, wtext: pw[0]}
+			if pw[0] != "" {
+				first.w, _ = strconv.ParseFloat(pw[0], 64)
+			}
+			s.cmds = append(s.cmds, first)
+			for j := 1; j <= 1+rr.Intn(3); j++ {
+				c := command{kind: "add", tg: mkTarget(rr, j)}
+				if rr.Intn(3) == 0 {
+					c.wtext = []string{"0.1", "0.2", "0.05"}[rr.Intn(3)]
+					c.w, _ = strconv.ParseFloat(c.wtext, 64)
+				}
+				s.cmds = append(s.cmds, c)
+			}
+			again := command{kind: "add", tg: t0, wtext: pw[1]}
+			again.w, _ = strconv.ParseFloat(pw[1], 64)
+			s.cmds = append(s.cmds, again)
+			if i%3 == 2 { // sometimes something else follows (which weighs the route again anyway)
+				s.cmds = append(s.cmds, command{kind: "add", tg: mkTarget(rr, 9)})
+			}
+			emit("re-add-other-weight", s, false)
+		}
+	}
+
 	// 5. float64 corner cases through the config language and through setWeight
 	edge := [][]string{
 		{"Inf"}, {"+Inf", ""}, {"", "inf"}, {"0.5", "Inf"}, {"Inf", "Inf"},
